@@ -16,6 +16,9 @@ pub struct Model<'a> {
     /// Values each state's timeline was last started from.
     pub entry: Vec<Option<Vals>>,
     pub values: Vals,
+    /// The values under the *other* admissible conversion of the time in state to f32 seconds
+    /// (see `other_nearest_f32`), when there is one and it gives different values.
+    pub values_alt: Option<Vals>,
     /// Timeline of the current stint (rebuilt from the spec at every fresh entry).
     stint: Vec<Option<MergedTimeline<ValsTimeline>>>,
 }
@@ -30,6 +33,51 @@ pub fn to_duration(dt: f32) -> Duration {
     }
 }
 
+/// A neighbour of `d.as_secs_f64() as f32` that is at least as near to the exact time (decided in
+/// integer arithmetic on nanoseconds), if there is one: the conversion through f64 rounds twice
+/// and can miss the nearest f32 by one step when the f64 lands on a midpoint.
+pub fn other_nearest_f32(d: Duration) -> Option<f32> {
+    let c0 = d.as_secs_f64() as f32;
+    if d.is_zero() || !c0.is_finite() || c0 <= 0.0 {
+        return None;
+    }
+    // |c * 1e9 - nanos| scaled by 2^k, exactly, for an f32 c = m * 2^e
+    let nanos = d.as_nanos();
+    let err = |c: f32| -> Option<u128> {
+        let bits = c.to_bits();
+        let exp = ((bits >> 23) & 0xff) as i32;
+        let (m, e) = if exp == 0 { ((bits & 0x7f_ffff) as u128, -149) } else { (((bits & 0x7f_ffff) | 0x80_0000) as u128, exp - 150) };
+        let scaled_c = m * 1_000_000_000u128; // c * 1e9 * 2^-e
+        // compare at the scale 2^-min(e, 0): both sides as integers
+        if e >= 0 {
+            if e > 60 {
+                return None;
+            }
+            let cn = scaled_c.checked_shl(e as u32)?;
+            Some(if cn > nanos { cn - nanos } else { nanos - cn })
+        } else {
+            if -e > 70 {
+                return None;
+            }
+            let nn = nanos.checked_mul(1u128 << (-e) as u32)?;
+            Some(if scaled_c > nn { scaled_c - nn } else { nn - scaled_c })
+        }
+    };
+    let e0 = err(c0)?;
+    let exp_of = |c: f32| (c.to_bits() >> 23) & 0xff;
+    for c in [f32::from_bits(c0.to_bits() - 1), f32::from_bits(c0.to_bits() + 1)] {
+        // (errors are comparable only at one scale: same binade)
+        if c.is_finite() && c > 0.0 && exp_of(c) == exp_of(c0) {
+            if let Some(e1) = err(c) {
+                if e1 <= e0 {
+                    return Some(c);
+                }
+            }
+        }
+    }
+    None
+}
+
 impl<'a> Model<'a> {
     pub fn new(spec: &'a AnimSpec) -> Self {
         let mut m = Model {
@@ -39,6 +87,7 @@ impl<'a> Model<'a> {
             remembered: None,
             entry: vec![None; NUM_STATES],
             values: spec.initial_values.clone(),
+            values_alt: None,
             stint: (0..NUM_STATES).map(|_| None).collect(),
         };
         m.enter_fresh(m.cur);
@@ -60,7 +109,41 @@ impl<'a> Model<'a> {
             // reached the timeline's total duration, its terminal values (C07): the end of time
             let s = self.tau.as_secs_f64() as f32;
             let t = if s >= tl.duration() { f32::MAX } else { s };
+            self.values_alt = other_nearest_f32(self.tau).map(|s2| {
+                let t2 = if s2 >= tl.duration() { f32::MAX } else { s2 };
+                let mut v = self.values.clone();
+                tl.update(&mut v, t2);
+                v
+            });
             tl.update(&mut self.values, t);
+        } else {
+            self.values_alt = None;
+        }
+    }
+
+    /// Compares observed values with the model's. "The time spent in the state" is a whole number
+    /// of nanoseconds; as f32 seconds it is a nearest f32 - the one `as_secs_f64() as f32` gives
+    /// (two roundings) or, when those two roundings do not give the nearest one, the nearest.
+    /// Either is what the property calls float rounding. When the observed values are those of
+    /// the other conversion the model follows (later entry values descend from them).
+    pub fn accept(&mut self, observed: &Vals) -> Option<&'static str> {
+        match vals_differ(observed, &self.values) {
+            None => None,
+            Some(f) => match &self.values_alt {
+                Some(alt) if vals_differ(observed, alt).is_none() => {
+                    self.values = alt.clone();
+                    None
+                }
+                _ => Some(f),
+            },
+        }
+    }
+
+    /// `is_ended` under the other admissible conversion, if there is one.
+    pub fn is_ended_differential_alt(&self) -> Option<bool> {
+        match &self.stint[self.cur] {
+            None => None,
+            Some(tl) => other_nearest_f32(self.tau).map(|s2| s2 >= tl.duration()),
         }
     }
 
@@ -111,5 +194,34 @@ impl<'a> Model<'a> {
             Some((s, _)) if s == self.cur => 1,
             Some(_) => 2,
         }
+    }
+}
+
+#[cfg(test)]
+mod tests {
+    use super::*;
+
+    #[test]
+    fn other_nearest() {
+        // 2^24 + 1 s and one nanosecond: the f64 is the midpoint 16777217.0, which rounds to even
+        // (16777216); the nearest f32 is 16777218
+        assert_eq!(other_nearest_f32(Duration::new(16_777_217, 1)), Some(16_777_218.0));
+        // an exact midpoint is equally near to both
+        assert_eq!(other_nearest_f32(Duration::new(16_777_217, 0)), Some(16_777_218.0));
+        assert_eq!(other_nearest_f32(Duration::new(16_777_216, 999_999_999)), None);
+        assert_eq!(other_nearest_f32(Duration::from_millis(1500)), None);
+        assert_eq!(other_nearest_f32(Duration::from_nanos(1)), None);
+        assert_eq!(other_nearest_f32(Duration::ZERO), None);
+        assert_eq!(other_nearest_f32(Duration::MAX), None);
+        let mut seen = 0;
+        for i in 0..2_000_000u64 {
+            let d = Duration::from_nanos(i * 7_919 + 13);
+            if let Some(c) = other_nearest_f32(d) {
+                seen += 1;
+                let c0 = d.as_secs_f64() as f32;
+                assert!((c as f64 - d.as_secs_f64()).abs() <= (c0 as f64 - d.as_secs_f64()).abs() * 1.000001 + 1e-18);
+            }
+        }
+        assert!(seen < 50);
     }
 }
